@@ -181,12 +181,7 @@ func runC04(c *core.Ctx) {
 		// the message this call sends: the first argument of its Send
 		sent := core.RootOf(core.Canon(cc.send.Common().Args[0]))
 		isOwnID := func(v ssa.Value) bool {
-			v = core.Canon(v)
-			if p, ok := v.(*ssa.Parameter); ok {
-				if a, ok := cc.subst[p]; ok {
-					v = core.Canon(a) // captured through the filter's factory
-				}
-			}
+			v = substValue(cc.subst, v) // captured directly, or through the filter's factory / receiver
 			if !isFieldOf(v, idF) {
 				return false
 			}
@@ -286,7 +281,7 @@ func isParamRooted(v ssa.Value) bool {
 
 func ruleMessageIDs(c *core.Ctx, lc *core.LockCache) {
 	const rule = "C04.ids"
-	idF := clientMessageID(c)
+	idOwner, idF := clientMessageID(c)
 	next := c.Func("bus", "client", "nextMessageID")
 	newMsg := c.Func("bus", "client", "newMessage")
 	newHeader := c.Func("bus/net", "", "NewHeader")
@@ -295,8 +290,8 @@ func ruleMessageIDs(c *core.Ctx, lc *core.LockCache) {
 		return
 	}
 	class := core.LockClass{Owner: "bus.client", Field: "messageIDMutex"}
-	if st := strct(c, "bus", "client"); st != nil {
-		if cl, ok := guardOf(c, lc, "bus", st, idF, "messageIDMutex"); ok {
+	if idOwner != nil {
+		if cl, ok := guardOf(c, lc, "bus", idOwner, idF, "messageIDMutex"); ok {
 			class = cl
 		}
 	}
@@ -318,8 +313,17 @@ func ruleMessageIDs(c *core.Ctx, lc *core.LockCache) {
 		c.Fail(rule, "messageID-store", idF.Pos(), "the message id counter is never advanced")
 	}
 	// nextMessageID returns the counter read after the increment, under the lock
+	// (itself, or the accessor of the counter whose result it hands back)
+	impl := next
+	for i := 0; i < 3; i++ {
+		h := forwardTarget(impl)
+		if h == nil {
+			break
+		}
+		impl = h
+	}
 	ok := true
-	for _, ret := range core.Returns(next) {
+	for _, ret := range core.Returns(impl) {
 		v := core.Canon(core.RetVal(ret, 0))
 		isLoad := isFieldOf(v, idF)
 		_, isBin := v.(*ssa.BinOp)
@@ -327,7 +331,7 @@ func ruleMessageIDs(c *core.Ctx, lc *core.LockCache) {
 			ok = false
 		}
 		if u, isU := v.(*ssa.UnOp); isU {
-			if h, _ := lc.Get(next).HeldAt(u, class, true); !h {
+			if h, _ := lc.Get(impl).HeldAt(u, class, true); !h {
 				ok = false
 			}
 		}
